@@ -480,6 +480,120 @@ fn gen_fresh_values() -> BoxedStrategy<Value> {
         .boxed()
 }
 
+/// Many threads, each resolving its own set of distinct paths / strings on shared data at the same moment: shared tables
+/// with more keys in flight than slots, or with a lookup split over two critical sections, mix the threads' answers.
+fn check_concurrent_keys(case: &Value, obs: &mut Obs) -> Result<(), String> {
+    let nthreads = case["threads"].as_u64().unwrap_or(6) as usize;
+    let per = case["per"].as_u64().unwrap_or(12) as usize;
+    let rounds = case["rounds"].as_u64().unwrap_or(20) as usize;
+    let family = case["family"].as_u64().unwrap_or(0);
+    let mut shared = serde_json::Map::new();
+    let mut rules: Vec<Value> = vec![];
+    let mut threads: Vec<Vec<Pair>> = vec![];
+    for t in 0..nthreads {
+        let mut calls = vec![];
+        for k in 0..per {
+            let key = format!("t{}k{}", t, k);
+            shared.insert(key.clone(), json!({"leaf": key, "n": t * 100 + k, "s": format!("{}px", t * 100 + k)}));
+            let rule = match (family + k as u64) % 5 {
+                0 => json!({"var": format!("{}.leaf", key)}),
+                1 => json!({"+": [{"var": format!("{}.s", key)}, 0]}),
+                2 => json!({"-": [format!(" {} ", t * 100 + k), {"var": format!("{}.n", key)}]}),
+                3 => json!({"missing": [format!("{}.leaf", key), format!("{}.nope", key)]}),
+                _ => json!({"cat": [{"var": format!("{}.leaf", key)}, "|", {"var": [format!("{}.zz", key), format!("d{}", k)]}]}),
+            };
+            rules.push(rule);
+            for _ in 0..rounds {
+                calls.push((rules.len() - 1, 0usize));
+            }
+        }
+        threads.push(calls);
+    }
+    let datas = vec![Value::Object(shared)];
+    // sequential reference first (and against the model)
+    let mut reference: Vec<Out> = vec![];
+    for (i, r) in rules.iter().enumerate() {
+        let got = call(r, &datas[0], obs, "sequential reference")?;
+        against_model(r, &datas[0], &got, &format!("sequential reference {}", i))?;
+        reference.push(got.out);
+    }
+    // interleave each thread's calls over its own rules
+    let threads: Vec<Vec<Pair>> = threads
+        .into_iter()
+        .map(|calls| {
+            let n = calls.len();
+            (0..n).map(|i| calls[(i * (per.max(1) * 7 + 1)) % n]).collect()
+        })
+        .collect();
+    let (results, _lines, _c) = run_batch(&rules, &datas, &threads, obs)?;
+    for (t, (calls, outs)) in threads.iter().zip(results.iter()).enumerate() {
+        for (p, out) in calls.iter().zip(outs.iter()) {
+            if !same_out(out, &reference[p.0]) {
+                return Err(format!("thread {} got {} for a call that gives {} sequentially while {} threads resolve {} distinct keys each on shared data: rule {}", t, out.short(), reference[p.0].short(), nthreads, per, rules[p.0]));
+            }
+        }
+    }
+    obs.nt(&format!("{} threads x {} distinct keys", nthreads, per));
+    Ok(())
+}
+
+fn gen_concurrent_keys() -> BoxedStrategy<Value> {
+    (2usize..=12, 4usize..=24, 5usize..=40, 0u64..5).prop_map(|(t, per, rounds, family)| json!({"threads": t, "per": per, "rounds": rounds, "family": family})).boxed()
+}
+
+/// One long history over many *distinct* rules and data (counters expanded from templates), each evaluated, then
+/// revisited in another order: state that only goes wrong at a capacity boundary, on an eviction or collision path,
+/// or after many calls has thousands of distinct keys to trip over.
+fn check_long_history(case: &Value, obs: &mut Obs) -> Result<(), String> {
+    let n = case["n"].as_u64().unwrap_or(100) as usize;
+    let stride = (case["stride"].as_u64().unwrap_or(7) as usize) | 1;
+    let family = case["family"].as_u64().unwrap_or(0);
+    let make = |k: usize| -> (Value, Value) {
+        let ks = k.to_string();
+        match (family + k as u64) % 10 {
+            0 => (json!({"+": [{"var": "a"}, k]}), json!({"a": k % 7})),
+            1 => (json!({"cat": ["k", k, {"var": "s"}]}), json!({"s": format!("s{}", k % 13)})),
+            2 => (json!({"var": format!("k{}", k)}), json!({format!("k{}", k): k, format!("k{}", k + 1): "other"})),
+            3 => (json!({"-": [format!("{}px", k), 0]}), Value::Null),
+            4 => (json!({"+": [format!("{}px", k)]}), Value::Null),
+            5 => (json!({"==": [format!(" {} ", k), k]}), Value::Null),
+            6 => (json!({"var": (k % 5)}), json!(format!("é{}ü", ks))),
+            7 => (json!({"substr": [format!("日本{}語", ks), (k % 4) as i64 - 2]}), Value::Null),
+            8 => (json!({"in": [k, {"var": "xs"}]}), json!({"xs": [k + 1, k, format!("{}", k)]})),
+            _ => (json!({"if": [{"<": [{"var": "a"}, k]}, format!("lt{}", k), {"var": "a"}]}), json!({"a": k / 2})),
+        }
+    };
+    let mut first: Vec<Observed> = Vec::with_capacity(n);
+    for k in 0..n {
+        let (rule, data) = make(k);
+        let got = call(&rule, &data, obs, "long history, first visit")?;
+        against_model(&rule, &data, &got, &format!("long history, first visit of item {} of {}", k, n))?;
+        first.push(got);
+    }
+    // revisit in a permuted order (stride coprime with n when n is a power of two minus ...: any odd stride, n forced even+1)
+    let m = if n % 2 == 0 { n + 1 } else { n };
+    let mut k = 0usize;
+    for step in 0..m {
+        k = (k + stride) % m;
+        if k >= n {
+            continue;
+        }
+        let (rule, data) = make(k);
+        let got = call(&rule, &data, obs, "long history, revisit")?;
+        if !same_out(&got.out, &first[k].out) || got.lines != first[k].lines {
+            return Err(format!("item {} of a {}-item history gave {} on its first visit but {} when revisited after {} further calls: {}", k, n, first[k].out.short(), got.out.short(), n - k + step, fmt_case(&rule, &data)));
+        }
+    }
+    obs.nt(&format!("long history of {} distinct calls", if n >= 2048 { "2048+" } else if n >= 1024 { "1024-2047" } else if n >= 256 { "256-1023" } else { "under 256" }));
+    Ok(())
+}
+
+fn gen_long_history() -> BoxedStrategy<Value> {
+    (prop_oneof![2 => 16usize..300, 2 => 300usize..1500, 1 => 1500usize..5000, 1 => select(vec![255usize, 256, 257, 511, 512, 513, 1023, 1024, 1025, 2047, 2048, 2049, 4096, 4097])], 1u64..64, 0u64..10)
+        .prop_map(|(n, stride, family)| json!({"n": n, "stride": stride, "family": family}))
+        .boxed()
+}
+
 /// the same calls made as the only call of a fresh process (the CLI) must give the same value and the same log lines
 fn check_fresh_process(case: &Value, obs: &mut Obs) -> Result<(), String> {
     // the fresh process receives texts: evaluate in-process on exactly what those texts deliver
@@ -599,6 +713,30 @@ pub fn property() -> Property {
                 check: check_fresh_values,
                 quick: 6_000,
                 thorough: 300_000,
+                small_stack: false,
+            },
+            Sub {
+                name: "concurrent_keys",
+                about: "2-12 threads, each making 5-40 rounds of calls over its own 4-24 distinct paths / numeric strings / missing-key lists on one shared data object, released together; every result must equal the sequential reference (which is checked against the model).",
+                nontrivial: "every case.",
+                strategy: Some(gen_concurrent_keys),
+                fixed: None,
+                fixed_exhaustive: false,
+                check: check_concurrent_keys,
+                quick: 240,
+                thorough: 12_000,
+                small_stack: false,
+            },
+            Sub {
+                name: "long_history",
+                about: "one long history of 16-5000 *distinct* calls (ten templates expanded with a counter: arithmetic on data, cat, var on per-item keys, parseFloat- and Number-style conversion of per-item strings, string indexing and slicing of non-ASCII text, in, if) each checked against the model, then all revisited in a permuted order: every revisit must reproduce the first visit; sizes concentrate around 256 / 512 / 1024 / 2048 / 4096.",
+                nontrivial: "every case (classified by length).",
+                strategy: Some(gen_long_history),
+                fixed: None,
+                fixed_exhaustive: false,
+                check: check_long_history,
+                quick: 480,
+                thorough: 24_000,
                 small_stack: false,
             },
             Sub {
